@@ -1172,7 +1172,7 @@ fn sql_part(acc: &mut Acc, rng: &mut Rng, ep: &Epochs, dbpath: &str, quick: bool
         }
         Err(e) => scaffold_fail(acc, "date functions over text column", &qtext, &e),
     }
-    let qdate = format!("SELECT id, {} FROM t", list("d"));
+    let qdate = format!("SELECT id, {} FROM t{}", list("d"), if quick { " LIMIT 30000" } else { "" });
     match sql_q(&db, &qdate) {
         Ok(rs) => {
             acc.evals += rs.len() as u64;
@@ -1623,7 +1623,7 @@ pub fn run(a: &Args) -> i32 {
         let _ = std::fs::remove_dir_all(&dir);
         let _ = std::fs::create_dir_all(&dir);
         let dbpath = format!("{}/db", dir);
-        let reduce = quick && ctx.elapsed() > 25.0;
+        let reduce = quick && ctx.elapsed() > 12.0;
         let data = sql_part(&mut top, &mut rng, &ep, &dbpath, quick, miri, reduce);
         ctx.extra.insert("sql_pass_wall_s".into(), json!(((ctx.elapsed() - t2) * 10.0).round() / 10.0));
         match (find_cli(), data) {
